@@ -221,6 +221,20 @@ CLAIMED = {
             'Convergence of each series / Newton iteration for each argument is not decided; seeded '
             'change C24-1 (Stirling threshold computed from the lower precision) is not detected.',
             'DESIGN.md section 4 (C24)'),
+    'C34': ('H-ode-closure',
+            'static analysis: closure-state and region rules on odefun (frozen working-precision '
+            'region around all computation, discovery of every mutated closure container, '
+            'append-only lock-step segment lists, index-range argument for the bisection lookup, '
+            'min-fold of the step radius over all components)',
+            'Order and precision independence of the interpolant: everything it computes runs inside a '
+            'region whose precision is a creation-time constant; the only state surviving a call is the '
+            'pair of append-only segment lists; the lookup index is inside the list (x >= x0 enforced, '
+            'right bisection, n-1 under n < len); results are re-rounded after the restore.  For the '
+            'error bound: the step radius is a minimum over every component.  Decides these clauses, '
+            'not the size of the truncation error.',
+            'Accuracy of the Taylor steps (degree, Euler step h, the /2 safety factor) is numerical and '
+            'not decided.',
+            'DESIGN.md section 4 (C34)'),
 }
 
 NA_REASONS = {
